@@ -34,6 +34,8 @@ func checkC10(c *Ctx) {
 	c.checkCompoundCommandsComparedByHead()
 	c.checkOnlineKeyedBySubscribedUser()
 	c.checkEnabledComesFromEnCommand()
+	c.checkOnlineDecrementMatchesIncrement()
+	c.checkContactOnlineOnlyWhenEnabled()
 	// of the module-wide intersection census only the predicates presence depends on (P, R, and J for
 	// "upd")
 	c.R.Scoped(func(rule, construct string) bool {
